@@ -55,6 +55,25 @@ def pair(d, collide):
     raise ValueError(collide)
 
 
+def expected(collide, which, inst):
+    """what the validator built from schema `which` (0 or 1) of the pair must report, written down independently of any run in this
+    process (a baseline computed in-process could already be poisoned by state shared between validators)"""
+    out = []
+    for i, e in enumerate(inst):
+        if collide in ("format-str",):
+            bad = len(e) > 1 if which == 0 else len(e) > 0
+            kw = "format"
+        elif collide == "format":
+            bad = e > 3 if which == 0 else e < 7
+            kw = "format"
+        else:
+            bad = e > 3 if which == 0 else e < 7
+            kw = "maximum" if which == 0 else "minimum"
+        if bad:
+            out.append([kw, i])
+    return out
+
+
 def make(d, spec):
     schema, store, fc = spec
     cls = tp.CLS[d]
@@ -129,8 +148,11 @@ def interleave(d, collide, steps, third=False, same=False, built=False):
                 got[i].extend(list(its[i]))
         except Exception as e:
             raise HarnessEscape(type(e).__name__)
+        which = [0, 1, 0]
         for i in range(len(vs)):
             if summ(got[i]) != alone[i]:
+                return False, "diverged"
+            if summ(got[i]) != expected(collide, which[i], insts[i]):
                 return False, "diverged"
         n = len(alone[0]) + len(alone[1])
         return True, ("errors" if n else "none")
